@@ -114,6 +114,15 @@ def run_check(pid, tier, seed):
     if tier == "thorough" and os.environ.get("VERIF_LEANCHECKER", "1") == "1":
         core.leanchecker(sorted({t.split(":")[0] for t in spec["theorems"]}))
         checked_by_leanchecker = True
+    # translation tie (properties whose code is also translated into Lean on every run)
+    tie_state = None
+    if spec.get("tie"):
+        import tie
+        tie_state = tie.check(spec["tie"])
+        if tie_state["status"] not in ("holds", "holds-rechecked"):
+            print("note: translation tie `%s` is %s (%s) - the correspondence tie decides; larger budget" % (
+                spec["tie"], tie_state["status"],
+                tie_state.get("reason") or ", ".join(sorted(tie_state.get("modules_no_longer_checking", {})))))
     # change-directed effort: a modelled function that differs from the validated version gets the
     # thorough generator budget even in the quick tier (steers effort only, never a verdict)
     import fingerprint
@@ -213,6 +222,7 @@ def run_check(pid, tier, seed):
             "exhaustive": False, "lean_build_s": round(build_s, 2),
             "direct_sweep_failures": len(m["failures"]), "known_findings_hit": sorted(seen_known),
             "changed_functions_since_validation": changed,
+            **({"translation_tie": tie_state} if tie_state else {}),
             "implementation_line_coverage": function_line_coverage(m["lines_hit"]),
         },
         "assumptions": registry.ASSUMPTIONS + spec.get("assumptions", []),
